@@ -25,6 +25,7 @@ Case line:  `<item> <ctor> <n> <vâ€¦> ; op ; op ; â€¦`      or      `const <type
   ctor  new (one value) | slice | iter | iterp | iterr (n values; `iterp` / `iterr`: `from_iter` on a partially consumed /
         a reversed `ExactSizeIterator` that yields exactly these values)
   op    set i v | mod l r <modifier> | ask l r | lb l <pred> | lbr r <pred> | dbg | dfl (`Default::default()`)
+        nlb l <pred> | nlbr r <pred>  (= lb / lbr for the model; the harness makes the predicate re-entrant)
         | cp i l r (`set(i, ask(l, r))`: a value the API returned is fed back)
         | x i l r  (`other.set(i, this.ask(l, r))`: into the SECOND tree, built by the same constructor from the same values
           plus the first value once more â€” one element longer)
@@ -207,6 +208,12 @@ def runOps (s : Seg T) (xs : List T) (s2 : Seg T) (xs2 : List T) : List String â
     let toks := tokens o
     let sel := toks.head? == some "b"
     let toks := if sel then toks.drop 1 else toks
+    -- `nlb` / `nlbr`: the harness runs the same search with a re-entrant predicate (at every probe it calls into other
+    -- live trees before answering); nothing of that may show: to the model it is the plain search
+    let toks := match toks with
+      | "nlb" :: t => "lb" :: t
+      | "nlbr" :: t => "lbr" :: t
+      | _ => toks
     -- `(a, xa)` = the tree the op addresses, `(b, xb)` = the other one
     let a := if sel then s2 else s
     let xa := if sel then xs2 else xs
